@@ -164,14 +164,7 @@ Lemma decode_bom_ascii : forall s rest,
   utf16le_decode_bom (utf16le_ascii s ++ 0 :: 0 :: rest)
   = utf16_sm false (utf16le_ascii s ++ 0 :: 0 :: rest) None 0.
 Proof.
-  intros s rest H. unfold utf16le_decode_bom.
-  assert (Hc : exists c t, utf16le_ascii s ++ 0 :: 0 :: rest = c :: t /\ c <= 127).
-  { destruct s as [|c s].
-    - exists 0, (0 :: rest). split; [reflexivity|lia].
-    - cbn [forallb] in H. apply andb_prop in H. destruct H as [Hc _].
-      exists c, (0 :: utf16le_ascii s ++ 0 :: 0 :: rest). split; [reflexivity|lia]. }
-  destruct Hc as (c & t & -> & Hc).
-  rewrite !starts_with_ascii; [reflexivity|exact Hc|cbn; auto|exact Hc|cbn; auto|exact Hc|cbn; auto].
+  intros s rest H. reflexivity.
 Qed.
 
 Lemma firstn_app_exact : forall (A : Type) (a b : list A) n, length a = n -> firstn n (a ++ b) = a.
